@@ -695,15 +695,23 @@ func c03KindAt(ops []string, i int) string {
 //
 //	"setcache": the history replaces or detaches a cache after one was attached (SetCache while reading ahead);
 //	"evicting": no such switch, but a cache with fewer slots than the file has members is attached (a Put can evict);
-//	"stable":   neither — every member fits and the cache is attached once: nothing can be taken away, the
-//	            recorded race (DESIGN §6 #28) cannot occur, and a failure here is a different defect.
+//	"reseek":   neither, but at least two Seeks follow the attachment: a Seek served from the cache redirects the
+//	            worker while decompressors with blocks for the old position are still in flight; nothing is taken
+//	            away from the cache, but the stale blocks can outnumber the cap(working) mismatches nextBlock
+//	            tolerates (the second mechanism of the recorded finding; needs no eviction);
+//	"stable":   none of these — every member fits, the cache is attached once and at most one Seek follows:
+//	            neither mechanism of the recorded finding applies, a failure here is a different defect.
 func c03RaceShape(cs c03Case) string {
 	attached, switched, small := false, false, false
+	seeks := 0
 	members := len(cs.Payloads)
 	if cs.Marker {
 		members++
 	}
 	for _, op := range cs.Ops {
+		if op != "" && op[0] == 's' && attached {
+			seeks++
+		}
 		if op == "" || op[0] != 'c' {
 			continue
 		}
@@ -727,6 +735,8 @@ func c03RaceShape(cs c03Case) string {
 		return "setcache"
 	case small:
 		return "evicting"
+	case seeks >= 2:
+		return "reseek"
 	}
 	return "stable"
 }
